@@ -795,6 +795,7 @@ func main() {
 		os.Exit(2)
 	}
 	writeReport()
+	dumpLockOrder()
 	keys := make([]string, 0, len(rep.Ops))
 	for k := range rep.Ops {
 		keys = append(keys, k)
